@@ -353,6 +353,7 @@ Eval(e, st) ==
   IF ~Live(st) THEN <<Null, st>>
   ELSE
   CASE e.k = "num" -> <<Num(e.n), st>>
+    [] e.k = "fnum" -> <<Null, Halt(st, "bad")>>      \* a non-integer literal (source text in e.src): outside this model
     [] e.k = "str" -> <<Str(e.s), st>>
     [] e.k = "group" -> Eval(e.e, st)
     [] e.k = "var" -> <<GetVar(st, e.name), st>>
